@@ -1884,3 +1884,18 @@ Proof.
   split; [vm_compute; reflexivity|]. split; [vm_compute; reflexivity|].
   split; [vm_compute; reflexivity|]. vm_compute. discriminate.
 Qed.
+
+(* VarSet::union_with / union *)
+Lemma vs_contains_union o : forall s w,
+  vs_contains (vs_union s o) w = vs_contains s w || vs_contains o w.
+Proof.
+  unfold vs_union. induction o as [|x o IH]; intros s w; cbn [fold_left].
+  - unfold vs_contains at 3. cbn [existsb]. rewrite orb_false_r. reflexivity.
+  - rewrite IH, vs_contains_insert. unfold vs_contains at 4. cbn [existsb].
+    fold (vs_contains o w). destruct (w =? x), (vs_contains s w), (vs_contains o w); reflexivity.
+Qed.
+Lemma vs_union_wf o : forall s, vs_wf s -> vs_wf (vs_union s o).
+Proof.
+  unfold vs_union. induction o as [|x o IH]; intros s H; cbn [fold_left]; [exact H|].
+  apply IH, vs_insert_wf, H.
+Qed.
